@@ -892,5 +892,41 @@ pub fn run_game(ctx: &Ctx, rep: &mut Report, c10: bool, c11: bool) {
     }
 }
 
+/// One coverage-guided game (thorough tier, fuzz target `game`): the input bytes choose the start, the
+/// policy and then every decision of `GameMon::play` (moves, draw offers, claims, resignations, illegal
+/// move attempts); the automaton judges every return value as in the generated workloads.
+pub fn fuzz_game(prop: &str, data: &[u8], rep: &mut Report) {
+    if data.len() < 4 {
+        return;
+    }
+    let mon = GameMon { c10: prop != "C11", c11: prop != "C10" };
+    let mut rng = Rng::with_feed(hash_bytes(data), data);
+    let rev = reversible_starts();
+    let promo = promotion_starts();
+    let (start, pol, len) = match rng.below(8) {
+        0 => (RPos::startpos(), Policy2::Random, 60),
+        1 => (RPos::from_fen(rev[rng.below(rev.len())]).unwrap(), Policy2::Seek, 60),
+        2 => (RPos::from_fen(rev[rng.below(rev.len())]).unwrap(), Policy2::Avoid, 230),
+        3 => (RPos::from_fen(promo[rng.below(promo.len())]).unwrap(), Policy2::AvoidBreak, 230),
+        4 | 5 => {
+            let id = rng.below(synth::N_SCEN);
+            let seed = rng.next() | rng.next() << 16;
+            match synth::scenario(&mut Rng::new(seed ^ 0xfeed), id) {
+                Some(st) => (st.pos, Policy2::RandomAfterPrelude(st.prelude), 30),
+                None => return,
+            }
+        }
+        6 => (RPos::from_fen(rev[rng.below(rev.len())]).unwrap(), Policy2::Random, 80),
+        _ => {
+            let seed = rng.next() | rng.next() << 16;
+            (synth::synth(&mut Rng::new(seed ^ 0xbead), Density::Sparse), Policy2::Random, 60)
+        }
+    };
+    if !start.valid() {
+        return;
+    }
+    mon.play(&start, pol, len, &mut rng, rep);
+}
+
 #[allow(dead_code)]
 fn _unused(_: ChessMove, _: Color, _: Piece, _: Square) {}
